@@ -23,8 +23,15 @@
 
 BEGIN_NAMESPACE_TECMP
 
+#ifdef ASAM_CMP_VERIF
+struct VerifAccess;
+#endif
+
 class Decoder final
 {
+#ifdef ASAM_CMP_VERIF
+    friend struct VerifAccess;
+#endif
 public:
     using PacketPtr = std::shared_ptr<ASAM::CMP::Packet>;
     using TecmpPayloadPtr = std::shared_ptr<TECMP::Payload>;
